@@ -198,6 +198,10 @@ func (c *C07Case) clockInside() bool {
 }
 
 func checkC07(c C07Case) h.Outcome {
+	return judgeC07(c, func() *saml2.SAMLServiceProvider { return c.buildSP() })
+}
+
+func judgeC07(c C07Case, newSP func() *saml2.SAMLServiceProvider) h.Outcome {
 	o := h.Outcome{NonTrivial: true}
 	o.Classes = []string{"plain:" + c.Plain, "place:" + c.Place, "respSig:" + c.RespSig, "recip:" + c.Recip, "spCert:" + c.SPCert, "store:" + c.StoreKind,
 		fmt.Sprintf("validate:%v", c.SP.ValidateEncCert), "clock:" + c.ClockPos, "window:" + c.Window, "alg:" + shortAlg(c.Enc.DataAlg), "transport:" + shortAlg(c.Enc.Transport)}
@@ -208,8 +212,8 @@ func checkC07(c C07Case) h.Outcome {
 		idpOK = !c.SP.Now().Before(nb) && !c.SP.Now().After(na)
 	}
 	o.Classes = append(o.Classes, fmt.Sprintf("idpOK:%v", idpOK), fmt.Sprintf("spCertInside:%v", inside))
-	resp, err := c.buildSP().ValidateEncodedResponse(c.Encoded)
-	info, err2 := c.buildSP().RetrieveAssertionInfo(c.Encoded)
+	resp, err := newSP().ValidateEncodedResponse(c.Encoded)
+	info, err2 := newSP().RetrieveAssertionInfo(c.Encoded)
 	if (err == nil) != (err2 == nil) {
 		o.Violation = h.V("entry-points-disagree", "ValidateEncodedResponse err=%v, RetrieveAssertionInfo err=%v", err, err2)
 		return o
